@@ -39,24 +39,15 @@ fn expect_moment(b: &Option<GenericDataBlock>) -> Option<MomentData> {
     b.as_ref().map(|b| MomentData::from_fixed_point(b.header.scale, b.header.offset, b.encoded_data.clone()))
 }
 
-/// borrowing and consuming conversions agree and report exactly the message's fields; every moment is wired
-/// to its own block (distinct symbolic scale/offset per block make a crossed wiring visible)
+/// header part of the mapping: for every 32-byte header (no moment blocks) the borrowing and the consuming
+/// conversion agree and report exactly the message's fields (complete: loop-free over all header bytes)
 #[kani::proof]
-#[kani::unwind(4)]
-fn c07_radial_mapping() {
+fn c07_radial_header_mapping() {
     let hb: [u8; 32] = kani::any();
     let mut r: &[u8] = &hb;
     let header: Header = crate::util::deserialize(&mut r).unwrap();
     kani::assume(finite(header.azimuth_angle) && finite(header.elevation_angle));
-    let mut m = Message::new(header);
-    m.reflectivity_data_block = opt_block();
-    m.velocity_data_block = opt_block();
-    m.spectrum_width_data_block = opt_block();
-    m.differential_reflectivity_data_block = opt_block();
-    m.differential_phase_data_block = opt_block();
-    m.correlation_coefficient_data_block = opt_block();
-    m.specific_diff_phase_data_block = opt_block();
-
+    let m = Message::new(header);
     let a = m.radial();
     let b = m.clone().into_radial();
     assert!(a.is_ok() == b.is_ok());
@@ -82,25 +73,51 @@ fn c07_radial_mapping() {
             assert!(a.radial_status() == w);
         }
         assert!(Some(a.collection_timestamp()) == h.date_time().map(|d| d.timestamp_millis()));
-        assert!(a.reflectivity() == expect_moment(&m.reflectivity_data_block).as_ref());
-        assert!(a.velocity() == expect_moment(&m.velocity_data_block).as_ref());
-        assert!(a.spectrum_width() == expect_moment(&m.spectrum_width_data_block).as_ref());
-        assert!(a.differential_reflectivity() == expect_moment(&m.differential_reflectivity_data_block).as_ref());
-        assert!(a.differential_phase() == expect_moment(&m.differential_phase_data_block).as_ref());
-        assert!(a.correlation_coefficient() == expect_moment(&m.correlation_coefficient_data_block).as_ref());
-        assert!(a.specific_differential_phase() == expect_moment(&m.specific_diff_phase_data_block).as_ref());
+        assert!(a.reflectivity().is_none() && a.velocity().is_none() && a.spectrum_width().is_none());
+        assert!(a.differential_reflectivity().is_none() && a.differential_phase().is_none());
+        assert!(a.correlation_coefficient().is_none() && a.specific_differential_phase().is_none());
     }
 }
 
-/// gate values, 8-bit words, <= 3 gates: raw 0 below threshold, raw 1 range folded, otherwise
+/// moment part of the mapping: every subset of the seven moment blocks (each with its own symbolic finite
+/// scale / offset and one symbolic gate byte, so a crossed wiring is visible) over a fixed header: each model
+/// moment is built from its own block; absent stays absent; both conversions agree
+#[kani::proof]
+#[kani::unwind(4)]
+fn c07_radial_moment_wiring() {
+    let mut hb = [0u8; 32];
+    hb[9] = 1; // date = 1
+    let mut r: &[u8] = &hb;
+    let header: Header = crate::util::deserialize(&mut r).unwrap();
+    let mut m = Message::new(header);
+    m.reflectivity_data_block = opt_block();
+    m.velocity_data_block = opt_block();
+    m.spectrum_width_data_block = opt_block();
+    m.differential_reflectivity_data_block = opt_block();
+    m.differential_phase_data_block = opt_block();
+    m.correlation_coefficient_data_block = opt_block();
+    m.specific_diff_phase_data_block = opt_block();
+    let a = m.radial().unwrap();
+    let b = m.clone().into_radial().unwrap();
+    assert!(a == b);
+    assert!(a.reflectivity() == expect_moment(&m.reflectivity_data_block).as_ref());
+    assert!(a.velocity() == expect_moment(&m.velocity_data_block).as_ref());
+    assert!(a.spectrum_width() == expect_moment(&m.spectrum_width_data_block).as_ref());
+    assert!(a.differential_reflectivity() == expect_moment(&m.differential_reflectivity_data_block).as_ref());
+    assert!(a.differential_phase() == expect_moment(&m.differential_phase_data_block).as_ref());
+    assert!(a.correlation_coefficient() == expect_moment(&m.correlation_coefficient_data_block).as_ref());
+    assert!(a.specific_differential_phase() == expect_moment(&m.specific_diff_phase_data_block).as_ref());
+}
+
+/// gate values, 8-bit words, <= 2 gates: raw 0 below threshold, raw 1 range folded, otherwise
 /// (raw - offset) / scale, or raw itself when scale is 0 — identically at the decode and the model level,
 /// exactly one value per gate
 #[kani::proof]
 #[kani::unwind(5)]
 fn c07_values_formula() {
     let gates: u16 = kani::any();
-    kani::assume(gates <= 3);
-    kani::cover!(gates == 3);
+    kani::assume(gates <= 2);
+    kani::cover!(gates == 2);
     let b = block(gates);
     let scale = b.header.scale;
     let offset = b.header.offset;
@@ -109,7 +126,7 @@ fn c07_values_formula() {
     assert!(d.len() == gates as usize);
     assert!(mv.len() == gates as usize);
     let mut i = 0;
-    while i < 3 {
+    while i < 2 {
         if i < gates as usize {
             let raw = b.encoded_data[i];
             if scale != 0.0 {
